@@ -157,6 +157,9 @@ def run(tier, out):
                 tot_cases += acc
         if bi == 0 and cases:
             out.sample({"script": cases[0]["acts"][:12]})
+    # component level: the lanes' own sync machinery (Lanes.tla on the real lane objects)
+    from checks import k_lanes
+    k_lanes.run_k(tier, out, os.path.join(wd, "klanes"), prop="C03")
     out.add(traces_validated_against_impl=tot_cases, trace_events_validated=tot_events,
             rule="scripts are behaviours of AgentEnv.tla (TLC simulation, seeded) plus an exhaustive placement of a sync request in fixed update streams; every recorded execution is validated against Trace_ValueView, Trace_MapReplica and Trace_LinkProtocol",
             checker_cmd="tlc -simulate AgentEnv; h_runtime/e2e; tlc Trace_ValueView / Trace_MapReplica / Trace_LinkProtocol")
@@ -166,6 +169,9 @@ def run(tier, out):
 
 def replay(path, out):
     obj = json.load(open(path))["replay"]
+    if obj.get("component") == "lanes":
+        from checks import k_lanes
+        return k_lanes.replay(path, out)
     if str(obj.get("component", "")).startswith("WriteTask"):
         from checks import k_writetask
         return k_writetask.replay(path, out)
